@@ -139,6 +139,11 @@ Fresh == [cred |-> "cookie", age |-> 0]
 Targets == {"self", "other", "othercase", "other/self", "self/", "self/other", "./self"}
 InC02(r) == \/ \E u \in NameClasses, k \in GoodKeys, p \in UserPaths, w \in Worlds, t \in Targets :
                  r = Req(p, u, k, D1h, Fresh, t, w)
+            \* an automation identity whose name has capitals, authenticated by its IP-restricted certificate: a certificate's
+            \* name is not a typed login name - it is what it is, and that is what gets certified
+            \/ \E k \in {Key("p256", "ecdsa", 256, 0, TRUE), Key("ed25519", "ed25519", 256, 0, TRUE)}, p \in UserPaths :
+                 r = Req(p, [typed |-> "Svc-Bot.CI", norm |-> "Svc-Bot.CI"], k, D1h, [cred |-> "ipcert", age |-> 0], "self",
+                         IF k.alg = "ed25519" THEN "ed25519ca" ELSE "plain")
             \* the password sent along with the request itself (no session): the same user, normalised the same way
             \/ \E u \in NameClasses, k \in {Key("p256", "ecdsa", 256, 0, TRUE), Key("rsa2048", "rsa", 2048, 65537, TRUE)}, p \in UserPaths,
                   w \in {"plain"}, t \in {"self", "other", "othercase", "typed"} :
